@@ -128,6 +128,10 @@ def calls_for(r, X, Y, Zt, Zd):
                 add(op, "%s %s" % (op, cs_text(d, cons)), "%s %s" % (op, cs_shape(d, cons)))
             for wid in ("limited_H79_extrapolation_assign", "bounded_BHRZ03_extrapolation_assign", "limited_BHRZ03_extrapolation_assign", "bounded_H79_extrapolation_assign"):
                 for P in (Y, Zt, Zd):
+                    # with the compatible partner the call is generated only when some rung certainly fires: an ACCEPTED widening needs y <= x,
+                    # which is a documented but unchecked precondition (violating it is undefined behaviour, not a C14 matter)
+                    certain = bool(cons) and (d > n or (closed and any(c.kind == ">" and triv_of(c.kind, c.b, c.coefs) != "T" for c in cons)))
+                    if P is Y and not certain: continue
                     if r.random() < 0.35:
                         add("limited_extrapolation", "%s %d %s" % (wid, P.oid, cs_text(d, cons)), "limited_extrapolation %s %s" % (P.shape(), cs_shape(d, cons)))
     # ---- generators ----
@@ -139,7 +143,7 @@ def calls_for(r, X, Y, Zt, Zd):
             add("relation_with_gen", "relation_with_gen " + g.text(), "relation_with_gen " + g.shape())
         for pat in (["p"], ["r"], ["p", "r"], ["c", "p"], ["c"], ["r", "l"], []):
             if d == 0 and any(k in "rl" for k in pat): continue
-            gens = [Gen(d, k, [r.randint(-2, 2) for _ in range(d)] if k in "pc" else unit(d, i), 1) for i, k in enumerate(pat)]
+            gens = [Gen(d, k, [r.randint(-2, 2) for _ in range(d)] if k in "pc" else unit(d, i % d), 1) for i, k in enumerate(pat)]
             for op in ("add_generators", "add_recycled_generators"):
                 add(op, "%s %s" % (op, gs_text(d, gens)), "%s %s" % (op, gs_shape(d, gens)))
     # ---- congruences ----
@@ -253,7 +257,7 @@ def make_cases(seed, ncases, per_case=40):
         X = Obj(0, t, n, xe, xl)
         Y = Obj(1, t, n, False, gens_line(1, t, n))
         Zt = Obj(2, ot, n, False, gens_line(2, ot, n))
-        Zd = Obj(3, t, n + 1, False, cons_line(3, t, n + 1, False))
+        Zd = Obj(3, t, n + 1, False, "new 3 %s %d cons 2 >= 1 %s >= 3 %s" % (t, n + 1, " ".join(map(str, unit(n + 1, 0))), " ".join(map(str, unit(n + 1, n, -1)))))
         cl = ["case %s" % cid] + [o.line for o in (X, Y, Zt, Zd)]
         lazy = r.choice(LAZY)
         if lazy: cl.append("obs 0 %s" % lazy)
